@@ -1191,6 +1191,7 @@ def replay(ctx, obj):
     B.replay(ctx, obj)
 
 
+ANCHORS = ["src/ocean_science_utilities/interpolate/nd_interp.py", "src/ocean_science_utilities/interpolate/general.py", "src/ocean_science_utilities/interpolate/dataset.py", "src/ocean_science_utilities/interpolate/dataarray.py", "src/ocean_science_utilities/interpolate/dataframe.py", "src/ocean_science_utilities/interpolate/geometry.py", "src/ocean_science_utilities/tools/grid.py", "src/ocean_science_utilities/tools/math.py", "src/ocean_science_utilities/wavespectra/spectrum.py"]
 READY = True
 LEVEL_TEXT = ("Theorems (Coq, all periods > 0, all targets, all grids that are strictly ascending, shorter than one period and with cyclic "
               "gaps below half a period): range, periodicity and uniqueness of the float modulo and of wrapped_difference; a target any "
